@@ -430,6 +430,11 @@ def likelihood_list(S, N1, N2):
         d1, d2 = MultivariateNormal(m1, C1), MultivariateNormal(m2, C2)
         outs = ll(d1, d2)
         outs_kw = llf(d1, d2, noise=[cn1, cn2])  # each member gets its own call-time noise
+        # "an iterable of noise tensors": a tuple, a generator and a dict view are split per member exactly like a list
+        alt = {}
+        for nm, mk in (("tuple", lambda: (cn1, cn2)), ("generator", lambda: (t_ for t_ in (cn1, cn2))), ("dict values", lambda: {"a": cn1, "b": cn2}.values())):
+            oo = S.must_not_raise("LikelihoodList call with the per-member noises given as a %s" % nm, lambda: llf(d1, d2, noise=mk()), any_origin=True)
+            alt[nm] = [o.covariance_matrix for o in oo]
         sig = as_sym_arr(SH.get(l1.noise)).reshape(-1)[0]
         e = ll.expected_log_prob((y1, d1), (y2, d2))
         c = [(o.mean, o.covariance_matrix) for o in outs]
@@ -445,6 +450,12 @@ def likelihood_list(S, N1, N2):
     S.prove_eq(c[1][1], CS2 + diag(F2), "list member 1: C + diag(fixed)")
     S.prove_eq(ckw[0][1], CS1 + diag(CN1), "list member 0 with its own call-time noise")
     S.prove_eq(ckw[1][1], CS2 + diag(CN2), "list member 1 with its own call-time noise")
+    for nm, cc in alt.items():
+        S.check_concrete(len(cc) == 2 and tuple(cc[0].shape) == (N1, N1) and tuple(cc[1].shape) == (N2, N2), "noise as a %s: one un-batched marginal per member" % nm,
+                         str([tuple(c_.shape) for c_ in cc]))
+        if len(cc) == 2 and tuple(cc[0].shape) == (N1, N1) and tuple(cc[1].shape) == (N2, N2):
+            S.prove_eq(cc[0], CS1 + diag(CN1), "noise as a %s: member 0 gets its own noise" % nm)
+            S.prove_eq(cc[1], CS2 + diag(CN2), "noise as a %s: member 1 gets its own noise" % nm)
     S.prove_eq(c[0][0], M1, "list member 0 mean"); S.prove_eq(c[1][0], M2, "list member 1 mean")
     S.prove_eq(e[0], as_sym_arr(SH.get(e1)), "list expected_log_prob member 0")
     S.prove_eq(e[1], as_sym_arr(SH.get(e2)), "list expected_log_prob member 1")
